@@ -1,0 +1,95 @@
+//go:build verif
+
+package pubsub
+
+// Read-only exports for the dead-peer / reconnect-backoff verification family
+// (/verif/spec/deadpeer, check X02). Nothing here changes library behaviour.
+
+import (
+	"context"
+	"fmt"
+	"sync"
+	"time"
+
+	"github.com/libp2p/go-libp2p/core/peer"
+)
+
+// VerifNewBackoff builds a backoff unit exactly as NewPubSub does (the cleanup
+// loop goroutine included).
+func VerifNewBackoff(ctx context.Context, sizeThreshold int, cleanupInterval time.Duration, maxAttempts int) *VerifBackoff {
+	return newBackoff(ctx, sizeThreshold, cleanupInterval, maxAttempts)
+}
+
+// VerifBackoffEntry is a copy of one peer's backoff history.
+type VerifBackoffEntry struct {
+	Duration  time.Duration
+	LastTried time.Time
+	Attempts  int
+}
+
+// VerifInfo copies the per-peer histories.
+func (b *backoff) VerifInfo() map[peer.ID]VerifBackoffEntry {
+	b.mu.Lock()
+	defer b.mu.Unlock()
+	out := make(map[peer.ID]VerifBackoffEntry, len(b.info))
+	for id, h := range b.info {
+		out[id] = VerifBackoffEntry{Duration: h.duration, LastTried: h.lastTried, Attempts: h.attempts}
+	}
+	return out
+}
+
+// VerifBackoffConsts are the package constants the backoff law is made of.
+type VerifBackoffConsts struct {
+	MinDelay, MaxDelay, TTL, CleanupInterval time.Duration
+	Multiplier, JitterCoff, MaxAttempts      int
+}
+
+func VerifBackoffConstants() VerifBackoffConsts {
+	return VerifBackoffConsts{MinDelay: MinBackoffDelay, MaxDelay: MaxBackoffDelay, TTL: TimeToLive,
+		CleanupInterval: BackoffCleanupInterval, Multiplier: BackoffMultiplier, JitterCoff: MaxBackoffJitterCoff,
+		MaxAttempts: MaxBackoffAttempts}
+}
+
+// VerifDeadPeerBackoff is the node's own dead-peer backoff unit (safe from any goroutine).
+func (p *PubSub) VerifDeadPeerBackoff() *VerifBackoff { return p.deadPeerBackoff }
+
+// VerifPending copies the two pending sets (peers announced by identify but not yet
+// handled, peers whose outbound stream died but not yet handled). Safe from any goroutine.
+func (p *PubSub) VerifPending() (newPeers, deadPeers []peer.ID) {
+	p.newPeersPrioLk.RLock()
+	p.newPeersMx.Lock()
+	newPeers = sortedPeerKeys(p.newPeersPend)
+	p.newPeersMx.Unlock()
+	p.newPeersPrioLk.RUnlock()
+	p.peerDeadPrioLk.RLock()
+	p.peerDeadMx.Lock()
+	deadPeers = sortedPeerKeys(p.peerDeadPend)
+	p.peerDeadMx.Unlock()
+	p.peerDeadPrioLk.RUnlock()
+	return
+}
+
+// verifQueueSeen numbers the queue objects in the order the harness first saw them. It keeps them reachable on purpose:
+// an address must not be re-used for a later queue, or two queues would get the same identity.
+var (
+	verifQueueMu   sync.Mutex
+	verifQueueSeen = map[*rpcQueue]int{}
+)
+
+// VerifQueueIDsInLoop returns, for every entry of p.peers, the identity of its queue object ("q<n>", numbered
+// process-wide in order of first sight): two snapshots name the same queue iff the strings are equal.
+// Must run on the event-loop goroutine (use VerifEval) or inside a RawTracer callback of the loop.
+func (p *PubSub) VerifQueueIDsInLoop() map[peer.ID]string {
+	out := make(map[peer.ID]string, len(p.peers))
+	verifQueueMu.Lock()
+	defer verifQueueMu.Unlock()
+	for pid, q := range p.peers {
+		n, ok := verifQueueSeen[q]
+		if !ok {
+			n = len(verifQueueSeen) + 1
+			verifQueueSeen[q] = n
+		}
+		out[pid] = fmt.Sprintf("q%d", n)
+	}
+	return out
+}
